@@ -1,6 +1,7 @@
 package props
 
 import (
+	"encoding/json"
 	"fmt"
 	"math/rand"
 	"os"
@@ -162,7 +163,7 @@ func randomFlags(rng *rand.Rand, j *kj.Journal, o flagOpts) *kj.Flags {
 	if o.Mapping && rng.Intn(2) == 0 {
 		n := 1 + rng.Intn(2)
 		for k := 0; k < n; k++ {
-			r := kj.Rule{Level: rng.Intn(3), Suffix: rng.Intn(2), Regex: []string{"", "^Assets", "^Expenses:Food", "Bank", "^Income"}[rng.Intn(5)]}
+			r := kj.Rule{Level: rng.Intn(3), Suffix: rng.Intn(4), Regex: []string{"", "^Assets", "^Expenses:Food", "Bank", "^Income", "^Expenses", "Trips|Main"}[rng.Intn(7)]}
 			if r.Level == 0 {
 				r.Suffix = 0
 			}
@@ -237,4 +238,112 @@ func rowsOf(cs map[string]any) []any {
 	o := cs["obs"].(map[string]any)
 	r, _ := o["rows"].([]any)
 	return r
+}
+
+// ---------------------------------------------------------------- (G) TLC-generated journals x flags
+
+type genLedgerCase struct {
+	Journal []struct {
+		K  string `json:"k"`
+		Z  int    `json:"z"`
+		C  string `json:"c"`
+		P  int    `json:"p"`
+		T  string `json:"t"`
+		Bk []struct {
+			Cr string `json:"cr"`
+			Dr string `json:"dr"`
+			C  string `json:"c"`
+			Q  int    `json:"q"`
+		} `json:"bk"`
+	} `json:"journal"`
+	Flags struct {
+		From    int      `json:"from"`
+		To      int      `json:"to"`
+		Iv      string   `json:"iv"`
+		Last    int      `json:"last"`
+		Diff    bool     `json:"diff"`
+		Close   bool     `json:"close"`
+		AcctAll bool     `json:"acctAll"`
+		Accts   []string `json:"accts"`
+		Map     []struct {
+			Level  int      `json:"level"`
+			Suffix int      `json:"suffix"`
+			All    bool     `json:"all"`
+			Match  []string `json:"match"`
+		} `json:"map"`
+		Remap []string `json:"remap"`
+	} `json:"flags"`
+	V string `json:"v"`
+}
+
+func alternation(names []string) string {
+	if len(names) == 0 {
+		return "^$x" // matches nothing
+	}
+	return "^(" + strings.Join(names, "|") + ")$"
+}
+
+// ledgerGen replays the (journal, flags) states of the MC_Ledger scope through the real CLI;
+// TLC judges the observed reports like any other balance case.
+func ledgerGen(c *core.Ctx, family string, sample int) {
+	r := c.TLC(core.TLCOpts{Spec: "MC_Ledger", Cfg: "MC_Ledger_" + family + "_gen.cfg", Workers: 8, Timeout: 30 * time.Minute, Heap: "10g"})
+	if !r.OK {
+		c.Infra("MC_Ledger_%s_gen failed: %s", family, r.ErrorText)
+		return
+	}
+	var lines []string
+	for _, ln := range r.Printed {
+		u := core.Unquote(ln)
+		if strings.HasPrefix(u, "CASE ") {
+			lines = append(lines, u[5:])
+		}
+	}
+	total := len(lines)
+	if sample > 0 && len(lines) > sample {
+		rg := rand.New(rand.NewSource(c.Seed + 99))
+		rg.Shuffle(len(lines), func(a, b int) { lines[a], lines[b] = lines[b], lines[a] })
+		lines = lines[:sample]
+	}
+	var bcs []balCase
+	for _, ln := range lines {
+		var g genLedgerCase
+		if err := json.Unmarshal([]byte(ln), &g); err != nil {
+			c.Infra("bad generated ledger case: %v", err)
+			return
+		}
+		j := &kj.Journal{QS: 1}
+		for _, a := range []string{"Assets:A:B", "Liabilities:L", "Equity:Equity", "Expenses:X", "Income:I"} {
+			j.Dirs = append(j.Dirs, kj.Dir{K: "open", Z: 18258, A: a})
+		}
+		for _, d := range g.Journal {
+			switch d.K {
+			case "price":
+				j.Dirs = append(j.Dirs, kj.Dir{K: "price", Z: d.Z, C: d.C, P: d.P, T: d.T})
+			case "trx":
+				x := kj.Dir{K: "trx", Z: d.Z, Desc: "g"}
+				for _, b := range d.Bk {
+					x.Bk = append(x.Bk, kj.Booking{Cr: b.Cr, Dr: b.Dr, C: b.C, Q: b.Q})
+				}
+				j.Dirs = append(j.Dirs, x)
+			}
+		}
+		f := &kj.Flags{From: g.Flags.From, To: g.Flags.To, Iv: g.Flags.Iv, Last: g.Flags.Last, Diff: g.Flags.Diff, Close: g.Flags.Close, V: g.V}
+		if !g.Flags.AcctAll {
+			f.AcctRx = alternation(g.Flags.Accts)
+		}
+		for _, m := range g.Flags.Map {
+			rule := kj.Rule{Level: m.Level, Suffix: m.Suffix}
+			if !m.All {
+				rule.Regex = alternation(m.Match)
+			}
+			f.Map = append(f.Map, rule)
+		}
+		if len(g.Flags.Remap) > 0 {
+			f.RemapRx = alternation(g.Flags.Remap)
+		}
+		bcs = append(bcs, balCase{J: j, F: f})
+	}
+	c.Add("generated_behaviours_replayed", len(bcs))
+	c.Set("generated_scope_"+family, fmt.Sprintf("%d of %d (journal, flags) states of MC_Ledger_%s_gen", len(bcs), total, family))
+	runBalance(c, c.Prop+"gen"+family, bcs, 5000000+len(family)*1000000, func(cs map[string]any) bool { return len(rowsOf(cs)) >= 3 })
 }
